@@ -527,11 +527,28 @@ func vfRunCell(c vfCell, res *vfCellResult) {
 	if model.failFate == "zombie" {
 		fp := pathOf(t.fail)
 		if cx := acts[fp]; cx != nil && cx.zombie {
-			w.sys.Kill(w.ref(t.fail), false, "release zombie")
+			// the property names two ways out: an explicit Kill, or the parent's termination (alternating by cell)
+			how := "Kill"
+			if par := t.parent[t.fail]; par != "" && t.parent[par] != "" && (c.Burst+c.FailPos+len(c.Hook))%2 == 1 {
+				how = "parent termination"
+				w.sys.Kill(w.ref(par), false, "release zombie through its parent")
+			} else {
+				w.sys.Kill(w.ref(t.fail), false, "release zombie")
+			}
 			w.settle(time.Second)
 			a2, _ := w.registry()
 			if _, still := a2[fp]; still {
-				add("c09-zombie-not-released", "Kill", "zombie %s is still registered after an explicit Kill", fp)
+				add("c09-zombie-not-released", how, "zombie %s is still registered after %s", fp, how)
+			} else {
+				// C03: once released the former zombie is an ordinary terminated actor: later mail is dead-lettered exactly
+				// once, whichever way the sender got its reference (the ActorOf value has the mailbox memoised)
+				fr := w.ref(t.fail)
+				w.tellPostRelease(fr, "actorof", &vfCmd{Op: "noop", Sender: 3, Seq: 1})
+				w.tellPostRelease(fr.Clone(), "clone", &vfCmd{Op: "noop", Sender: 3, Seq: 2})
+				if pr, err := w.sys.ParseRef(fr.String()); err == nil {
+					w.tellPostRelease(pr, "parse", &vfCmd{Op: "noop", Sender: 3, Seq: 3})
+				}
+				w.settle(time.Second)
 			}
 		}
 	}
